@@ -105,6 +105,18 @@ pub fn suite_encode(out: &mut Out, tier: &str, rng: &mut Rng) {
             }
         }
     }
+    // writer positions at and beyond 2^31 / 2^32 (a Writer that behaves as if it already held that much):
+    // positions kept in 32 bits, or with a bit borrowed for a flag, go wrong here
+    for k in [16u32, 24, 30, 31, 32, 33, 40, 47, 62] {
+        for add in [-1i64, 0, 100] {
+            let (kind, v) = match (k as i64 + add).rem_euclid(3) {
+                0 => ("avp", gen_avp(rng, 20)),
+                1 => ("avp", gen_hidden(rng, 33)),
+                _ => ("msg", gen_control(rng, 3, 12)),
+            };
+            out.emit(json!({"op": "encode", "kind": kind, "v": v, "prefix": [], "wr": "sparse", "vbase_log2": k, "vbase_add": add}));
+        }
+    }
     // sizes around 2^16 and 2^17: a length computed or compared in 16 bits would wrap here
     let wraps: &[usize] = if tier == "thorough" {
         &[65529, 65530, 65531, 65535, 65536, 65600, 66553, 66554, 131066, 131100]
@@ -1679,6 +1691,293 @@ pub fn suite_octet_sweep(out: &mut Out, tier: &str, rng: &mut Rng) {
                         body.extend(enc_record(1, 6 + q.len(), 0, *t, &q));
                         let w = enc_control_raw(flag_word(true, true, true, false, false, 2), None, [1, 2, 3, 4], &body);
                         out.emit(json!({"op": "chain", "in": bytes_json(&w), "opts": [true, true, true]}));
+                    }
+                }
+            }
+        }
+    }
+}
+
+// ---------------------------------------------------------------------------------------------
+// content classes that "tidying" code mangles
+
+fn special_texts() -> Vec<Vec<u8>> {
+    let atoms: Vec<&str> = vec![
+        "\u{feff}", " ", "\t", "\n", "\r\n", "\r", "\0", "\u{a0}", "\u{200b}", "\u{2028}", "\u{85}", "\u{1}", "\u{7f}",
+        "\u{fffd}", "\u{d7ff}", "\u{e000}", "\u{ffff}", "\u{10000}", "\u{10ffff}", "\u{200f}", "\u{301}",
+    ];
+    let mut out: Vec<Vec<u8>> = Vec::new();
+    for a in atoms.iter() {
+        for t in [a.to_string(), format!("{a}ab"), format!("ab{a}"), format!("a{a}b"), format!("{a}{a}"), format!("{a}ab{a}")] {
+            out.push(t.into_bytes());
+        }
+    }
+    for w in [
+        "ABC", "abc", "Abc", "Stra\u{df}e", "STRASSE", "\u{130}", "i\u{307}", "\u{1c5}", "e\u{301}", "\u{e9}", "\u{fb01}", "A\u{30a}", "\u{c5}",
+        "\u{ff11}\u{ff12}\u{ff13}", "+46-70 123", "0046701234567", "00", "+", "#*", "1234567890123456", "%41", "%00", "\\n", "\\0", "&amp;",
+        "<a>", "\"q\"", "'", "a;b", "a,b", "a=b", "a/b", "..", "a\\b", "$x", "{}", "null", "true", "0", "-1", "1e3", "0x10",
+    ] {
+        out.push(w.as_bytes().to_vec());
+    }
+    out
+}
+
+/// long texts of w-octet characters behind r ASCII octets: for every cap K some text has a character
+/// straddling octet offset K
+fn straddling_texts(total: usize) -> Vec<Vec<u8>> {
+    let mut out = Vec::new();
+    for (w, ch) in [(2usize, "\u{e9}"), (3, "\u{20ac}"), (4, "\u{1f600}")] {
+        for r in 0..w {
+            let mut t = "a".repeat(r);
+            while t.len() + w <= total {
+                t.push_str(ch);
+            }
+            out.push(t.into_bytes());
+        }
+    }
+    out
+}
+
+fn text_avp(kind: &str, text: &[u8], rng: &mut Rng) -> Value {
+    match kind {
+        "ResultCode" => json!({"k": "ResultCode", "f": [rng.range(0, 11), ["Generic"], [bytes_json(text)]]}),
+        "Q931CauseCode" => json!({"k": "Q931CauseCode", "f": [rng.u16(), rng.u8(), [bytes_json(text)]]}),
+        k => json!({"k": k, "f": [bytes_json(text)]}),
+    }
+}
+
+/// a plaintext (original-length subfield, payload, zero padding to 16) for the `reveal` operation
+fn plain_for(a: &Value) -> (u16, Vec<u8>) {
+    let p = enc_payload(a);
+    let mut plain = ((6 + p.len()) as u16).to_be_bytes().to_vec();
+    plain.extend_from_slice(&p);
+    while plain.len() % 16 != 0 {
+        plain.push(0);
+    }
+    (avp_type(a), plain)
+}
+
+/// texts with byte order marks, line ends, blanks, NULs, case / normalisation pairs, digits and punctuation,
+/// and long texts with multi-octet characters at every alignment, in every text-carrying AVP kind (and the
+/// short ones in octet-string kinds too): encoded, decoded, chained, hidden and revealed
+pub fn suite_text_classes(out: &mut Out, tier: &str, rng: &mut Rng) {
+    let text_kinds = ["ResultCode", "VendorName", "Q931CauseCode", "CalledNumber", "CallingNumber", "SubAddress"];
+    let octet_kinds = ["HostName", "Challenge", "ProxyAuthenName", "PrivateGroupId", "InitialReceivedLcpConfReq", "ProxyAuthenResponse"];
+    let specials = special_texts();
+    let mut n = 0usize;
+    for (ti, t) in specials.iter().enumerate() {
+        for (ki, k) in text_kinds.iter().chain(octet_kinds.iter()).enumerate() {
+            if ki >= text_kinds.len() && tier != "thorough" && (ti + ki) % 3 != 0 {
+                continue;
+            }
+            let a = text_avp(k, t, rng);
+            n += 1;
+            out.emit(json!({"op": "roundtrip", "kind": "avp", "v": a}));
+            out.emit(json!({"op": "encode", "kind": "avp", "v": a, "prefix": bytes_json(&rng.rbytes(0, 3)), "wr": if n % 2 == 0 { "vec" } else { "mon" }}));
+            let m = json!({"k": "Control", "length": 0, "tunnel_id": rng.u16(), "session_id": rng.u16(), "ns": rng.u16(), "nr": rng.u16(),
+                           "avps": [gen_message_type(rng), a]});
+            let wire = enc_control(&m);
+            out.emit(json!({"op": "decode", "in": bytes_json(&wire), "opts": [true, true, true], "entry": "validate", "rdr": "slice"}));
+            if n % 2 == 0 {
+                out.emit(json!({"op": "chain", "in": bytes_json(&wire), "opts": [true, true, true]}));
+            }
+            if n % 16 == 0 || (tier == "thorough" && n % 4 == 0) {
+                let (ty, plain) = plain_for(&a);
+                out.emit(json!({"op": "reveal", "t": ty, "plain": bytes_json(&plain), "secret": bytes_json(&secret_of(rng)), "rv": bytes_json(&rng.bytes(4))}));
+            }
+            if n % 40 == 0 || (tier == "thorough" && n % 8 == 0) {
+                out.emit(json!({"op": "hide_reveal", "v": a, "secret": bytes_json(&secret_of(rng)), "rv": bytes_json(&rng.bytes(4)),
+                                "lp": bytes_json(&rng.rbytes(0, 9)), "ap": bytes_json(&rng.bytes(16))}));
+            }
+        }
+    }
+    for total in [70usize, 140, 300, 520, 1000] {
+        for (i, t) in straddling_texts(total).iter().enumerate() {
+            for (ki, k) in text_kinds.iter().enumerate() {
+                if tier != "thorough" && (i + ki + total) % 2 == 1 {
+                    continue;
+                }
+                let a = text_avp(k, t, rng);
+                out.emit(json!({"op": "roundtrip", "kind": "avp", "v": a}));
+                let (ty, plain) = plain_for(&a);
+                out.emit(json!({"op": "reveal", "t": ty, "plain": bytes_json(&plain), "secret": bytes_json(&secret_of(rng)), "rv": bytes_json(&rng.bytes(4))}));
+                if (i + ki) % 6 == 0 {
+                    let m = json!({"k": "Control", "length": 0, "tunnel_id": 1, "session_id": 2, "ns": 3, "nr": 4, "avps": [gen_message_type(rng), a]});
+                    out.emit(json!({"op": "chain", "in": bytes_json(&enc_control(&m)), "opts": [true, true, true]}));
+                }
+            }
+        }
+    }
+    // secrets, random vectors and paddings with "textual" peculiarities, on one- and several-block values
+    let secrets: Vec<Vec<u8>> = vec![
+        b"\xef\xbb\xbfsecret".to_vec(), b"secret\n".to_vec(), b"secret\r\n".to_vec(), b" secret".to_vec(), b"secret ".to_vec(),
+        b"\0secret".to_vec(), b"secret\0".to_vec(), b"SECRET".to_vec(), b"secret".to_vec(), vec![0u8; 16], vec![0xffu8; 16], vec![b'a'; 64],
+        vec![b'a'; 65], b"\xef\xbb\xbf".to_vec(), b"\n".to_vec(), b"pass word".to_vec(), "p\u{e4}ss".as_bytes().to_vec(),
+    ];
+    for (i, sec) in secrets.iter().enumerate() {
+        for big in [false, true] {
+            let a = if big { host(15 + i * 3, rng) } else { gen_avp_kind(rng, (i * 7) % KINDS.len(), 6) };
+            let rv = match i % 4 { 0 => vec![0u8; 4], 1 => vec![0xff; 4], _ => rng.bytes(4) };
+            let lp = match i % 3 { 0 => vec![], 1 => vec![0u8; 5], _ => rng.rbytes(1, 20) };
+            let ap = match i % 3 { 0 => vec![0u8; 16], 1 => vec![0xffu8; 16], _ => rng.bytes(16) };
+            out.emit(json!({"op": "hide_reveal", "v": a, "secret": bytes_json(sec), "rv": bytes_json(&rv), "lp": bytes_json(&lp), "ap": bytes_json(&ap)}));
+        }
+    }
+}
+
+/// an LCP Configure-Request as RFC 1661 lays it out: code 1, identifier, length = whole packet, options as TLVs
+fn gen_lcp(rng: &mut Rng, nest: bool) -> Vec<u8> {
+    let mut opts: Vec<u8> = Vec::new();
+    for _ in 0..rng.range(0, 4) {
+        let ty = *rng.pick(&[1u8, 2, 3, 5, 7, 8]);
+        let body = rng.rbytes(0, 6);
+        opts.push(ty);
+        opts.push(2 + body.len() as u8);
+        opts.extend_from_slice(&body);
+    }
+    if nest {
+        // options that again look like a whole Configure-Request
+        let inner = gen_lcp(rng, false);
+        opts = inner;
+    }
+    let total = 4 + opts.len();
+    let mut p = vec![1u8, rng.u8(), (total >> 8) as u8, total as u8];
+    p.extend_from_slice(&opts);
+    p
+}
+
+/// messages as RFC 2661 s6 composes them (the AVPs each message type carries, mandatory ones always, optional
+/// ones in random subsets), with values drawn from small pools so that different fields often hold EQUAL
+/// values (Tx = Rx speed, assigned id = header id, min = max bps ...) and with LCP-shaped proxy payloads
+pub fn suite_rfc_messages(out: &mut Out, tier: &str, rng: &mut Rng) {
+    let comp: &[(&str, &[&str], &[&str])] = &[
+        ("StartControlConnectionRequest", &["ProtocolVersion", "HostName", "FramingCapabilities", "AssignedTunnelId"],
+         &["BearerCapabilities", "ReceiveWindowSize", "Challenge", "TieBreaker", "FirmwareRevision", "VendorName"]),
+        ("StartControlConnectionReply", &["ProtocolVersion", "FramingCapabilities", "HostName", "AssignedTunnelId"],
+         &["BearerCapabilities", "FirmwareRevision", "VendorName", "ReceiveWindowSize", "Challenge", "ChallengeResponse"]),
+        ("StartControlConnectionConnected", &[], &["ChallengeResponse"]),
+        ("StopControlConnectionNotification", &["AssignedTunnelId", "ResultCode"], &[]),
+        ("Hello", &[], &[]),
+        ("OutgoingCallRequest", &["AssignedSessionId", "CallSerialNumber", "MinimumBps", "MaximumBps", "BearerType", "FramingType", "CalledNumber"], &["SubAddress"]),
+        ("OutgoingCallReply", &["AssignedSessionId"], &["PhysicalChannelId"]),
+        ("OutgoingCallConnected", &["TxConnectSpeed", "FramingType"], &["RxConnectSpeed", "SequencingRequired"]),
+        ("IncomingCallRequest", &["AssignedSessionId", "CallSerialNumber"], &["BearerType", "PhysicalChannelId", "CallingNumber", "CalledNumber", "SubAddress"]),
+        ("IncomingCallReply", &["AssignedSessionId"], &[]),
+        ("IncomingCallConnected", &["TxConnectSpeed", "FramingType"],
+         &["InitialReceivedLcpConfReq", "LastSentLcpConfReq", "LastReceivedLcpConfReq", "ProxyAuthenType", "ProxyAuthenName", "ProxyAuthenChallenge",
+           "ProxyAuthenId", "ProxyAuthenResponse", "PrivateGroupId", "RxConnectSpeed", "SequencingRequired"]),
+        ("CallDisconnectNotify", &["ResultCode", "AssignedSessionId"], &["Q931CauseCode"]),
+        ("WanErrorNotify", &["CallErrors"], &[]),
+        ("SetLinkInfo", &["Accm"], &[]),
+    ];
+    let reps = counts(tier, 14, 300);
+    for (mt, mand, opt) in comp.iter() {
+        for rep in 0..reps {
+            // pools: every 16-bit / 32-bit field takes one of two values
+            let p16 = [rng.u16(), rng.u16()];
+            let p32 = [rng.bytes(4), rng.bytes(4)];
+            let ptext = [gen_utf8(rng, 5), gen_utf8(rng, 5)];
+            let mut names: Vec<&str> = mand.to_vec();
+            for o in opt.iter() {
+                let take = match rep { 0 => true, 1 => false, _ => rng.bool() };
+                if take {
+                    names.push(o);
+                }
+            }
+            if rep % 5 == 4 {
+                names.push("RandomVector");
+            }
+            let mut avps = vec![json!({"k": "MessageType", "f": [mt]})];
+            for nme in names {
+                let ki = KINDS.iter().position(|k| k.1 == nme).unwrap();
+                let mut a = gen_avp_kind(rng, ki, 8);
+                let prog = KINDS[ki].2;
+                let mut fi = 0usize;
+                for o in prog.iter() {
+                    match o {
+                        Op::U16 => { a["f"][fi] = json!(p16[rng.below(2) as usize]); fi += 1; }
+                        Op::Fix(4) => { a["f"][fi] = bytes_json(&p32[rng.below(2) as usize]); fi += 1; }
+                        Op::Utf8 => { a["f"][fi] = bytes_json(&ptext[rng.below(2) as usize]); fi += 1; }
+                        Op::Skip(_) => {}
+                        Op::OptErr => { fi += 2; }
+                        _ => { fi += 1; }
+                    }
+                }
+                if nme.ends_with("LcpConfReq") {
+                    a["f"][0] = bytes_json(&gen_lcp(rng, rep % 3 == 2));
+                }
+                if BITMASK_KINDS.contains(&nme) {
+                    // the defined bits, as real peers send them
+                    a["f"][0] = bytes_json(&[0, 0, 0, *rng.pick(&[0x40u8, 0x80, 0xc0])]);
+                }
+                avps.push(a);
+            }
+            let m = json!({"k": "Control", "length": 0, "tunnel_id": p16[0], "session_id": p16[rng.below(2) as usize],
+                           "ns": p16[1], "nr": p16[rng.below(2) as usize], "avps": avps});
+            out.emit(json!({"op": "roundtrip", "kind": "msg", "v": m}));
+            let wire = enc_control(&m);
+            if rep % 2 == 0 {
+                out.emit(json!({"op": "chain", "in": bytes_json(&wire), "opts": [true, true, true]}));
+            } else {
+                out.emit(json!({"op": "decode", "in": bytes_json(&wire), "opts": [true, true, true], "entry": "validate", "rdr": "slice"}));
+            }
+            if rep % 4 == 3 {
+                out.emit(json!({"op": "encode", "kind": "msg", "v": m, "prefix": bytes_json(&rng.rbytes(1, 40)), "wr": "mon"}));
+            }
+        }
+    }
+    // LCP-shaped payloads alone, in the three kinds that carry them
+    for _ in 0..counts(tier, 30, 1000) {
+        for k in ["InitialReceivedLcpConfReq", "LastSentLcpConfReq", "LastReceivedLcpConfReq", "ProxyAuthenChallenge"] {
+            let nest = rng.chance(1, 3);
+            let a = json!({"k": k, "f": [bytes_json(&gen_lcp(rng, nest))]});
+            out.emit(json!({"op": "roundtrip", "kind": "avp", "v": a}));
+            let m = json!({"k": "Control", "length": 0, "tunnel_id": 1, "session_id": 2, "ns": 3, "nr": 4, "avps": [gen_message_type(rng), a]});
+            out.emit(json!({"op": "chain", "in": bytes_json(&enc_control(&m)), "opts": [true, true, true]}));
+        }
+    }
+}
+
+/// the header of ONE record over the product of its fields -- flag bits, vendor id, attribute type, declared
+/// length (6..10 and the exact / short / long payload of known kinds) -- as the first record of a control
+/// message, as the second one behind a Message Type, and as a bare list
+pub fn suite_record_product(out: &mut Out, tier: &str, rng: &mut Rng) {
+    let flags: &[u8] = &[0, 1, 2, 3, 0x3d, 0x3e];
+    let types: Vec<u16> = if tier == "thorough" { (0..=41u16).chain([255, 256, 65535]).collect() } else { vec![0, 1, 7, 12, 13, 20, 26, 29, 34, 36, 39, 40, 65535] };
+    let ctl = |body: &[u8]| enc_control_raw(flag_word(true, true, true, false, false, 2), None, [1, 2, 3, 4], body);
+    for &f in flags {
+        for vendor in [0u16, 9] {
+            for &t in types.iter() {
+                let mut lens: Vec<usize> = vec![0, 1, 2, 3, 4];
+                if let Some((_, _, prog)) = kind_by_type(t) {
+                    let m = min_len(prog);
+                    for l in [m.saturating_sub(1), m, m + 1, 16, 17] {
+                        if !lens.contains(&l) {
+                            lens.push(l);
+                        }
+                    }
+                }
+                for n in lens {
+                    let p: Vec<u8> = match kind_by_type(t) {
+                        Some(_) if n >= 2 && rng.bool() => { let mut v = vec![0u8, 1]; v.extend(rng.bytes(n - 2)); v }
+                        _ => rng.bytes(n),
+                    };
+                    let rec = enc_record(f, 6 + n, vendor, t, &p);
+                    let pos = (f as usize + vendor as usize + t as usize + n) % 3;
+                    if tier == "thorough" || pos == 0 {
+                        let mut b = rec.clone();
+                        b.extend(enc_avp(&gen_avp(rng, 6)));
+                        out.emit(json!({"op": "decode", "in": bytes_json(&ctl(&b)), "opts": [true, true, true], "entry": "validate", "rdr": "slice"}));
+                        out.emit(json!({"op": "decode", "in": bytes_json(&ctl(&rec)), "opts": [false, false, false], "entry": "validate", "rdr": "slice"}));
+                    }
+                    if tier == "thorough" || pos == 1 {
+                        let mt = enc_avp(&gen_message_type(rng));
+                        let recs = vec![mt.clone(), rec.clone(), enc_avp(&gen_avp(rng, 6))];
+                        let body: Vec<u8> = recs.iter().flatten().copied().collect();
+                        out.emit(json!({"op": "ctl_records", "in": bytes_json(&ctl(&body)), "recs": recs.iter().map(|r| bytes_json(r)).collect::<Vec<_>>()}));
+                    }
+                    if tier == "thorough" || pos == 2 {
+                        out.emit(json!({"op": "decode_avps", "in": bytes_json(&rec), "rdr": "slice"}));
                     }
                 }
             }
